@@ -24,6 +24,9 @@ Tie (checked on every run, besides the translator `translator/gen_smat.py`):
           Lookup2d object, per-neuron units (never enter the score), approx_nn on eps-unambiguous clouds, forced
           distance-cap cases (limit 'auto' / number / None x alpha x normalisation with targets beyond / just inside the cap)
   dupids  duplicate ids inside one list are refused
+  tabhist (harness/c06x.py) the built-in table obtained through smat_fcwb / NBlaster(...).score_fn / parse_score_fn('auto'),
+          edited in place (cells, boundaries of either axis), then nblast / nblast_allbyall / nblast_smart with the default table:
+          == Lean definition over the GENERATED table; two fetches share no array
 Oracle clauses on the real code: Lean checker `binOK` on navis' bins; score == definition; self-score == 1;
 normalised <= 1 for the default tables; mean/min/max/both identities; all-by-all == query-vs-self; labels/ids in
 input order; documented no-hit semantics of `limit_dist`.
@@ -1118,7 +1121,7 @@ from harness import c06x as X   # noqa: E402  (extension streams: histories, nbl
 
 RUNNERS = {'digit': case_digit, 'lookup': case_lookup, 'match': case_match, 'nblast': case_nblast,
            'selfhit': case_selfhit, 'ext': case_ext, 'real': case_real,
-           'hist': X.case_hist, 'smart': X.case_smart, 'dupids': X.case_dupids}
+           'hist': X.case_hist, 'smart': X.case_smart, 'dupids': X.case_dupids, 'tabhist': X.case_tabhist}
 
 
 def guarded(ctx, kind, case):
@@ -1151,6 +1154,10 @@ def gen_cases(ctx):
         yield 'hist', w
     for w in X.smart_witnesses():
         yield 'smart', w
+    # the built-in table handed out, edited in place by the caller, then used by a default-table NBLAST again
+    k0 = r.randrange(42)
+    for k in range(ctx.budget(14, 84)):
+        yield 'tabhist', X.gen_tabhist(ctx, r, k0 + k)
     # distance cap x alpha x normalisation, with query points beyond the cap from every point of some target:
     # the score-level definition (no neighbour inside the cap => distance = cap, dot product = 0)
     lim = list(itertools.product(['auto', 2, 13, None], [False, True], [True, False]))
